@@ -261,3 +261,19 @@ func CloneMap(m map[string]any) map[string]any { return Clone(m).(map[string]any
 // IsRequired reports whether removing key from the site must make the
 // configuration invalid (the table's Required list).
 func IsRequired(s *Site, key string) bool { return has(s.Comp.Required, s.Dotted(key)) }
+
+// IsSkipped reports whether a key of the site must not be (re)generated: keys the
+// table never generates, and `file` next to a given `uris` (the two exclude each other).
+func IsSkipped(s *Site, key string) bool {
+	if has(s.Comp.Skip, s.Dotted(key)) {
+		return true
+	}
+	if s.Comp.Kind == KAmmo && s.Prefix == "" && strings.EqualFold(key, "file") {
+		for k := range s.Map {
+			if strings.EqualFold(k, "uris") {
+				return true
+			}
+		}
+	}
+	return false
+}
